@@ -146,15 +146,24 @@ def invalid_values(kind):
                     inf=float('inf'), ninf=float('-inf'), npnan=np.float64('nan'),
                     arr0d=np.array(2.0), arr1d=np.array([1.0, 2.0]),
                     tuple=(1, 2), q_angle=2 * u.deg, q_pix=2 * u.pix,
+                    q_solid=2 * u.sr, q_len=2 * u.m,
                     numstr='2.5', negint=-3, complex_=2 + 1j)
     if kind == 'pos_angle':
         return dict(common, zero=0 * u.deg, neg=-1 * u.arcsec, nan=np.nan * u.deg,
                     inf=np.inf * u.arcsec, plain=5, plainf=2.5,
                     arr=[1, 2] * u.deg, q_len=3 * u.m, q_pix=3 * u.pix,
-                    q_dimless=u.Quantity(3), numstr='5 arcsec')
+                    q_dimless=u.Quantity(3), numstr='5 arcsec',
+                    # physical types whose NAME or units resemble an angle
+                    q_solid=3 * u.sr, q_deg2=3 * u.deg ** 2,
+                    q_arcsec2=3 * u.arcsec ** 2, q_angvel=3 * u.rad / u.s,
+                    q_invangle=3 / u.deg, q_time=3 * u.s,
+                    q_scale=3 * u.arcsec / u.pix, q_hz=3 * u.Hz)
     if kind == 'angle':
         return dict(common, plain=30, plainf=0.5, arr=[1, 2] * u.deg,
-                    q_len=3 * u.m, q_dimless=u.Quantity(3), numstr='30 deg')
+                    q_len=3 * u.m, q_dimless=u.Quantity(3), numstr='30 deg',
+                    q_solid=30 * u.sr, q_deg2=30 * u.deg ** 2,
+                    q_angvel=30 * u.deg / u.s, q_invangle=30 / u.rad,
+                    q_time=30 * u.s, q_scale=30 * u.deg / u.pix)
     if kind == 'nvertices':
         return dict(common, zero=0, neg=-4, nan=float('nan'), two=2, one=1,
                     arr1d=np.array([3, 4]), q=5 * u.deg, inf=float('inf'))
